@@ -286,18 +286,43 @@ Proof. exact (targets_inside strop es ext stem outdir). Qed.
 Print Assumptions C11_written_paths_inside_outdir.
 
 (* (15) the written paths are pairwise distinct: distinct types get distinct files, distinct namespaces distinct namespace files,
-   and a type file is never a namespace file.  PARTIAL: besides stropping injectivity (names; namespaces: ns_fold strop = false)
-   the excluded trigger is a namespace-file stem equal to the stropped Short_M_m of a type (refuted below). *)
+   and a type file is never a namespace file -- for every run of build_namespace_tree that does not raise.
+   pin_c11tree_stem_check is REGENERATED from /repo: true iff build_namespace_tree has the stem check of
+   design_notes/C11_stem_collide_fix.patch (second pinned shape).  With the check, stem_guard is `True`: NO precondition on the
+   namespace-file stem.  Without it (known finding F-NS-STEM-COLLIDE) stem_guard is the excluded trigger: the stem is dot-free and
+   is not the stropped Short_M_m of a type.  Remaining hypotheses: stropping injectivity (names; namespaces: ns_fold strop = false). *)
 Theorem c11_targets_distinct (strop : str -> str) (es : bool) (ext stem : str) (outdir : path) :
   forall perm, (forall l, Permutation (perm l) l) ->
   forall (types : list ty) (r : str), NoDup types -> one_root r types -> types <> [] ->
+    build_checked pin_c11tree_stem_check strop same es ext stem outdir perm types <> None ->
     (forall x y, In x (names_of types) -> In y (names_of types) -> pstrop strop es x = pstrop strop es y -> x = y) ->
     (forall t, In t types -> ~ In DOT (pstrop strop es (base_name t))) ->
-    ns_fold strop types = false -> ~ In DOT stem ->
-    (forall t, In t types -> pstrop strop es (base_name t) <> stem) ->
+    ns_fold strop types = false ->
+    stem_guard strop es stem types pin_c11tree_stem_check ->
     forall g, NoDup (c11_targets strop es ext stem outdir g perm types).
-Proof. exact (targets_distinct strop es ext stem outdir). Qed.
+Proof.
+  intros perm P types r Hnd Hr Hne. exact (targets_distinct_no_raise strop es ext stem outdir perm P types r Hnd Hr Hne pin_c11tree_stem_check).
+Qed.
 Print Assumptions c11_targets_distinct.
+
+(* the same for either state of the code (what C12 can import without depending on the regenerated flag) *)
+Theorem c11_targets_distinct_either (strop : str -> str) (es : bool) (ext stem : str) (outdir : path) :
+  forall perm, (forall l, Permutation (perm l) l) ->
+  forall (types : list ty) (r : str), NoDup types -> one_root r types -> types <> [] ->
+  forall chk, build_checked chk strop same es ext stem outdir perm types <> None ->
+    (forall x y, In x (names_of types) -> In y (names_of types) -> pstrop strop es x = pstrop strop es y -> x = y) ->
+    (forall t, In t types -> ~ In DOT (pstrop strop es (base_name t))) ->
+    ns_fold strop types = false ->
+    stem_guard strop es stem types chk ->
+    forall g, NoDup (c11_targets strop es ext stem outdir g perm types).
+Proof. exact (targets_distinct_no_raise strop es ext stem outdir). Qed.
+Print Assumptions c11_targets_distinct_either.
+
+(* the checked code refuses the colliding configuration; the unchecked code goes on (and collides: refutation below) *)
+Example C11_stem_collision_raises_when_checked :
+  build_checked true same same true w_ext w_stem w_out w_id [w_T] = None /\
+  build_checked false same same true w_ext w_stem w_out w_id [w_T] <> None.
+Proof. exact stem_collision_raises_when_checked. Qed.
 
 (* without namespace files only stropping injectivity on the names is needed *)
 Theorem c11_targets_distinct_types_only (strop : str -> str) (es : bool) (ext stem : str) (outdir : path) :
@@ -309,7 +334,9 @@ Theorem c11_targets_distinct_types_only (strop : str -> str) (es : bool) (ext st
 Proof. exact (targets_distinct_types_only strop es ext stem outdir). Qed.
 Print Assumptions c11_targets_distinct_types_only.
 
-(* the full statement of (15) (every stem) is FALSE of the faithful model: known finding F-NS-STEM-COLLIDE.  Witness: ns.T.1.0
+(* WITHOUT the stem check (build_checked false = build; the state of /repo while pin_c11tree_stem_check = false) the full statement
+   of (15) (every stem) is FALSE of the faithful model: known finding F-NS-STEM-COLLIDE.  [Move to History/C11_history.v when the
+   fix lands.]  Witness: ns.T.1.0
    with namespace-file stem "T_1_0": namespace file and type file are one path, written twice. *)
 Theorem c11_targets_distinct_refuted :
   exists (strop : str -> str) (stem : str) (types : list ty) (r : str) (k : key) (t : ty),
